@@ -15,6 +15,7 @@ From FFS Require Import Base.Res Base.Bytes Abi.Spec.
 From FFS Require Import Eip712.Util Eip712.Input Eip712.Numeric Eip712.Coerce Eip712.Model Eip712.Spec Eip712.Repr.
 From FFS Require Import Eip712.Parse Eip712.ProofsSign Eip712.ProofsMain Eip712.ProofsInvariance Eip712.ProofsParse Eip712.ProofsAbi.
 From FFS Require Import Crypto.Ecdsa Eip712.ProofsSignVerify.
+From FFS Require Import Eip712.ProofsRound3.
 From FFS Require Secp.Model Secp.Proofs.
 Import ListNotations.
 
@@ -302,3 +303,22 @@ Example C04_nonvacuous_signature :
     SignTypedDataV4 H0 (fun _ => None) (key_signer Toy.ops (fun _ _ _ => 3%Z) 4 2%Z) (Some ex_td) = Ok res /\
     (r_V res = 27 \/ r_V res = 28)%Z /\ length (r_signatureRSV res) = 65%nat.
 Proof. cbv zeta. eexists. split; [vm_compute; reflexivity|]. split; [vm_compute; auto | vm_compute; reflexivity]. Qed.
+
+(* 7. A second call on the same object.  EncodeTypedDataV4 fills its defaults in place (an empty type
+      set / EIP712Domain type / domain map); [payload_after p] is what the caller's object holds after
+      the call.  Calling again on it gives the same result (digest, error or panic), for every document,
+      well formed or not: nothing the first call leaves behind changes the outcome.  (The harness makes
+      the second call on the implementation for every bulk document.) *)
+Theorem C04_second_call_same :
+  forall (H : bytes -> bytes) (big_other : bytes -> option Z) (p : typed_data),
+    EncodeTypedDataV4 H big_other (Some (payload_after p)) = EncodeTypedDataV4 H big_other (Some p)
+    /\ payload_after (payload_after p) = payload_after p.
+Proof. exact second_call. Qed.
+Print Assumptions C04_second_call_same.
+
+(* the first call does change the object: a document without types / domain comes back with both *)
+Example C04_nonvacuous_second_call :
+  let p := mkTD None (bs "EIP712Domain") None None in
+  payload_after p = mkTD (Some [(bs "EIP712Domain", Some [])]) (bs "EIP712Domain") (Some []) None
+  /\ payload_after p <> p.
+Proof. split; [vm_compute; reflexivity | discriminate]. Qed.
